@@ -1071,6 +1071,10 @@ def _process_add_event_tick(
     for step_name, step_config in state.config.steps.items():
         wait_conditions = state.workers[step_name].collected_waiters
         for wait_condition in wait_conditions:
+            # A waiter that already got its event (or timed out) is only waiting
+            # for its step to re-run; it must not capture further events.
+            if wait_condition.resolved_event is not None or wait_condition.timed_out:
+                continue
             is_match = type(tick.event) is wait_condition.waiting_for_event
             is_match = is_match and all(
                 getattr(tick.event, k, None) == v
